@@ -4,6 +4,7 @@ import (
 	"encoding/binary"
 	"fmt"
 	"math/rand"
+	"os"
 	"path/filepath"
 	"sort"
 	"strings"
@@ -135,7 +136,7 @@ func genC18(rng *rand.Rand, c *Case) {
 	c.Cfg["posterlen"] = []int{1, 12, 31, 200, 255}[rng.Intn(5)]
 	n := 6 + rng.Intn(30)
 	for i := 0; i < n; i++ {
-		k := []string{"bundle", "category", "post", "post", "post", "reply", "reply", "delart", "delitem", "restart", "category", "stale", "stale"}[rng.Intn(13)]
+		k := []string{"bundle", "category", "post", "post", "post", "reply", "reply", "delart", "delitem", "restart", "category", "stale", "stale", "awayreload"}[rng.Intn(14)]
 		tl := []int{0, 1, 20, 200, 255}[rng.Intn(5)]
 		bl := []int{0, 1, 100, 5000, 64000}[rng.Intn(5)]
 		c.Ops = append(c.Ops, Op{K: k, N: []int{rng.Intn(1 << 20), rng.Intn(1 << 20), tl, bl}})
@@ -324,7 +325,7 @@ func runC18(w *World) {
 				}
 				return string(b)
 			}
-			if cfg["reloads"] == 1 && op.K != "restart" && op.K != "stale" {
+			if cfg["reloads"] == 1 && op.K != "restart" && op.K != "stale" && op.K != "awayreload" {
 				w.ReloadDuring(op.N[1] % 48)
 			}
 			switch op.K {
@@ -492,6 +493,33 @@ func runC18(w *World) {
 					}
 				}
 				for _, ct := range cats {
+					if !checkArts(ct, when) {
+						return
+					}
+				}
+			case "awayreload":
+				// the operator replaces the news file the careless way (moves it aside, puts the new one in place a
+				// moment later) and the reload signal arrives in between: the reload fails, and a failed reload is
+				// no reason to forget a single article
+				SettleShort() // an operator reload placed inside the previous request has run by now
+				np := filepath.Join(w.ConfigDir, "ThreadedNews.yaml")
+				if w.Srv == nil || w.Srv.News == nil || os.Rename(np, np+".aside") != nil {
+					continue
+				}
+				err := w.Srv.News.Load()
+				must(os.Rename(np+".aside", np))
+				w.Probe("fault_operator_reload_while_news_file_is_away")
+				if err == nil {
+					w.Probe("reload_without_news_file_reported_no_error")
+				}
+				var bs, cs [][]string
+				paths(root, nil, &bs, &cs)
+				for _, b := range bs {
+					if !checkCats(b, when) {
+						return
+					}
+				}
+				for _, ct := range cs {
 					if !checkArts(ct, when) {
 						return
 					}
